@@ -1,6 +1,6 @@
 (* Property C16 -- Averaging learners report the sample statistics of exactly
-   the data they hold.  Statements only; proofs are in Proofs/AvgProofs.v and
-   Proofs/Avg1DProofs.v.
+   the data they hold.  Statements only, each closed by [exact] of the lemma of the
+   same name (_pf) in Proofs/C16Lemmas.v (built on Proofs/AvgProofs.v, Proofs/Avg1DProofs.v).
 
    Two kinds of statement:
    * for EVERY number structure [N] (in particular the IEEE-754 instance the
@@ -12,7 +12,7 @@
      Student-t half-width, batched = one-by-one) -- standard Reals axioms. *)
 From Coq Require Import PrimFloat.
 From Coq Require Import Reals.
-From AV Require Import Base.Prelude Base.NatSet Model.AvgNum Proofs.AvgProofs Proofs.Avg1DProofs.
+From AV Require Import Base.Prelude Base.NatSet Model.AvgNum Proofs.AvgProofs Proofs.Avg1DProofs Proofs.C16Lemmas.
 From AV Require Model.Avg Model.Avg1D.
 
 (* ================= AverageLearner ================= *)
@@ -29,20 +29,16 @@ Section C16_generic.
     Avg.sum_f s = Avg.suml N (Avg.values s) /\
     Avg.sum_f_sq s = Avg.suml N (map (n_sq N) (Avg.values s)) /\
     forall seed, Avg.lookup N seed (Avg.data s) = Avg.first_told h seed.
-  Proof.
-    intros h s. pose proof (inv_reach N c h) as H.
-    repeat split; try apply H.
-    intros seed. unfold s, Avg.reach. rewrite first_value. reflexivity.
-  Qed.
+  Proof. exact (C16_each_seed_once_pf N c). Qed.
 
   Theorem C16_std_undefined : forall h, let s := Avg.reach c h in
     Avg.npoints s < Avg.min_npoints c -> Avg.std c s = n_inf N.
-  Proof. intros h s. exact (std_undefined N c s). Qed.
+  Proof. exact (C16_std_undefined_pf N c). Qed.
 
   Theorem C16_loss_undefined : forall h (real : bool), let s := Avg.reach c h in
     (if real then Avg.npoints s else Avg.n_requested s) < Avg.min_npoints c ->
     Avg.loss c s real = Some (n_inf N).
-  Proof. intros h real s. exact (loss_undefined N c s real). Qed.
+  Proof. exact (C16_loss_undefined_pf N c). Qed.
 
   (* finding F11, exactly: loss(real=False) raises iff nothing is evaluated and
      at least min_npoints seeds are pending (and the guard of the repair is absent);
@@ -51,11 +47,11 @@ Section C16_generic.
     (Avg.loss c s false = None <->
      Avg.guard c = false /\ Avg.npoints s = 0 /\ Avg.min_npoints c <= length (Avg.pend s)) /\
     Avg.loss c s true <> None.
-  Proof. intros h s. split; [exact (loss_exp_raises_iff N c s)|exact (loss_real_some N c s)]. Qed.
+  Proof. exact (C16_loss_exp_raises_iff_pf N c). Qed.
 
   Theorem C16_loss_total_repaired : forall h real,
     Avg.guard c = true -> Avg.loss c (Avg.reach c h) real <> None.
-  Proof. intros h real. exact (loss_total_repaired N c (Avg.reach c h) real). Qed.
+  Proof. exact (C16_loss_total_repaired_pf N c). Qed.
 
   (* whatever ask returns: n distinct seeds, none evaluated, none pending; a
      committing ask marks them pending.  With np.isfinite(inf) = False, ask(n >= 1)
@@ -68,14 +64,7 @@ Section C16_generic.
        (commit = true -> forall p, In p pts -> In p (Avg.pend (fst (Avg.ask c s n commit hint))))) /\
     (n_finite N (n_inf N) = false -> 1 <= n ->
        exists pts imp, snd (Avg.ask c s n commit hint) = Avg.Asked N pts imp).
-  Proof.
-    intros h n commit hint s. split.
-    - intros pts imp Hs. destruct (ask_returns N c s n commit hint pts imp Hs) as [-> Hn].
-      destruct (ask_points_fresh N s n hint (inv_reach N c h)) as [H1 [H2 H3]].
-      repeat split; auto; try (apply H3; assumption).
-      intros -> p Hp. eapply ask_commits; eauto.
-    - intros Hf Hn. destruct (ask_answers N c s n commit hint Hf Hn) as [imp Hi]. eauto.
-  Qed.
+  Proof. exact (C16_fresh_seeds_pf N c). Qed.
 
   (* the model's nondeterminism covers every hash order: in the fallback branch
      any n distinct candidates (seeds below n_requested + n, neither evaluated
@@ -85,17 +74,14 @@ Section C16_generic.
     existsb (Avg.taken s) (seq (Avg.n_requested s) n) = true ->
     NoDup pts -> length pts = n -> (forall p, In p pts -> In p (Avg.candidates s n)) ->
     Avg.ask_points s n pts = pts.
-  Proof. intros h n pts s. exact (ask_points_any_choice N s n pts). Qed.
+  Proof. exact (C16_fresh_seeds_any_choice_pf N c). Qed.
 End C16_generic.
 
 (* the unrepaired code does raise: two pending seeds, nothing evaluated *)
 Theorem C16_loss_total_refuted : forall (N : NumOps) (a r : num N),
   exists (c : Avg.cfg N) (h : list (Avg.op N)),
     Avg.guard c = false /\ Avg.loss c (Avg.reach c h) false = None.
-Proof.
-  intros N a r. exists (Avg.mkcfg N a r 2 false), [Avg.TellPending 0; Avg.TellPending 1].
-  split; [reflexivity|exact (loss_total_refuted N a r)].
-Qed.
+Proof. exact C16_loss_total_refuted_pf. Qed.
 
 Section C16_real.
   Variable infR : R.
@@ -108,13 +94,7 @@ Section C16_real.
     Avg.sum_f_sq s = sumR (map (fun y => (y * y)%R) (Avg.values s)) /\
     (0 < Avg.npoints s -> Avg.mean s = Some (meanR (Avg.values s))) /\
     (Avg.npoints s = 0 -> Avg.mean s = None).
-  Proof.
-    intros h s. subst s. pose proof (inv_reach RN c h) as H. repeat split.
-    - rewrite (inv_sum H). apply suml_R.
-    - rewrite (inv_sumsq H). apply suml_R.
-    - apply mean_R. exact H.
-    - intros E. unfold Avg.mean. rewrite E. reflexivity.
-  Qed.
+  Proof. exact (C16_mean_pf infR c). Qed.
 
   (* sum_f_sq - n * mean^2 = sum of squared deviations from the sample mean, hence
      std = sqrt( sum (y - mean)^2 / (n - 1) ), the corrected sample standard deviation *)
@@ -122,16 +102,7 @@ Section C16_real.
     Avg.min_npoints c <= Avg.npoints s ->
     Avg.std_numerator s = sqdevR (Avg.values s) (meanR (Avg.values s)) /\
     Avg.std c s = sqrt (sqdevR (Avg.values s) (meanR (Avg.values s)) / INR (Avg.npoints s - 1)).
-  Proof.
-    intros h s Hn. pose proof (inv_reach RN c h) as H. fold s in H. clearbody s.
-    assert (Hlen : @length R (Avg.values s) = Avg.npoints s)
-      by (unfold Avg.values; rewrite map_length, (inv_npoints H); reflexivity).
-    split.
-    - unfold Avg.std_numerator. rewrite (inv_sumsq H), suml_R, (mean_val_R infR s H).
-      cbn [n_sub n_mul n_of_nat n_sq ROps]. rewrite <- Hlen. apply moment_identity.
-      intros E. rewrite E in Hlen. cbn in Hlen. unfold Avg.min_npoints in Hn. lia.
-    - rewrite (std_R infR c s H Hn). unfold varR. rewrite Hlen. reflexivity.
-  Qed.
+  Proof. exact (C16_std_pf infR c). Qed.
 
   (* loss = max(se / atol, se / rtol / |mean|) with se = std / sqrt(n), n the number of
      evaluated (real) or evaluated + pending (not real) seeds *)
@@ -140,7 +111,7 @@ Section C16_real.
     Avg.loss c s real =
     Some (loss_spec infR c (Avg.std c s) (meanR (Avg.values s))
                     (if real then Avg.npoints s else Avg.npoints s + length (Avg.pend s))).
-  Proof. intros h real s Hn. apply loss_R; [apply inv_reach|exact Hn]. Qed.
+  Proof. exact (C16_loss_formula_pf infR c). Qed.
 End C16_real.
 
 (* ================= AverageLearner1D ================= *)
@@ -156,10 +127,7 @@ Section C16_1d_generic.
     Forall (fun p => Avg1D.pcount p = length (Avg1D.samples p) /\ NoDup (Avg1D.seeds p) /\
                      1 <= Avg1D.pcount p)
            (Avg1D.reach tppf c h).
-  Proof.
-    intros h Hl. eapply Forall_impl; [|apply (G_reach N tppf c h Hl)].
-    intros p [H1 [H2 [H3 _]]]. auto.
-  Qed.
+  Proof. exact (C16_1d_counts_pf N tppf c). Qed.
 
   (* every evaluated abscissa with fewer than min_samples samples is in
      _undersampled_points, and while there is one, ask sends all n requests to one
@@ -174,11 +142,7 @@ Section C16_1d_generic.
       | Avg1D.Err => True
       | Avg1D.Done => False
       end.
-  Proof.
-    intros h Hl s. pose proof (G_reach N tppf c h Hl) as HG. split.
-    - eapply Forall_impl; [|exact HG]. intros p [_ [_ [_ H]]]. exact H.
-    - intros n hint. apply ask_undersampled. exact HG.
-  Qed.
+  Proof. exact (C16_1d_undersampled_first_pf N tppf c). Qed.
 
   (* tell_many is exactly the tell / tell_many_at_point calls on its groups *)
   Theorem C16_1d_tell_many_expands : forall s trip hs,
@@ -186,7 +150,7 @@ Section C16_1d_generic.
     if forallb (fun e => Avg1D.in_bounds c (snd (fst e))) trip
     then (Avg1D.run tppf c s (Avg1D.group_ops N (Avg1D.groups N trip) hs), Avg1D.Done)
     else (s, Avg1D.Err).
-  Proof. exact (tell_many_expands N tppf c). Qed.
+  Proof. exact (C16_1d_tell_many_expands_pf N tppf c). Qed.
 End C16_1d_generic.
 
 Section C16_1d_real.
@@ -203,10 +167,7 @@ Section C16_1d_real.
   Theorem C16_1d_mean_is_sample_mean : forall h : list (Avg1D.op RN),
     @Avg1D.legal RN tppf c (Avg1D.init RN) h = true -> hints_ok h ->
     Forall (fun p : Avg1D.pt RN => Avg1D.pmean p = meanR (Avg1D.ys p)) (reachR h).
-  Proof.
-    intros h Hl Hh. eapply Forall_impl; [|apply (GR_reach infR tppf c h Hl Hh)].
-    intros p [_ [H _]]. exact H.
-  Qed.
+  Proof. exact (C16_1d_mean_is_sample_mean_pf infR tppf c). Qed.
 
   (* error[x] = inf for one sample, else t.ppf(1-alpha, n-1) * sqrt(s^2 / n), s^2 the
      corrected sample variance of the n samples at x *)
@@ -218,13 +179,7 @@ Section C16_1d_real.
               else (tppf (length (Avg1D.ys p) - 1) *
                     sqrt (varR (Avg1D.ys p) / INR (length (Avg1D.ys p))))%R)
            (reachR h).
-  Proof.
-    intros h Hl Hh. eapply Forall_impl; [|apply (GR_reach infR tppf c h Hl Hh)].
-    intros p [[Hc _] [_ H]]. rewrite H. unfold errspec.
-    assert (Hlen : @length R (Avg1D.ys p) = Avg1D.pcount p) by (unfold Avg1D.ys; rewrite map_length; auto).
-    assert (Hlen' : @length (num RN) (Avg1D.ys p) = Avg1D.pcount p) by exact Hlen.
-    rewrite ?Hlen, ?Hlen'. reflexivity.
-  Qed.
+  Proof. exact (C16_1d_error_is_t_halfwidth_pf infR tppf c). Qed.
 
   (* telling a batch at x (tell_many_at_point) and telling its samples one by one give,
      at every abscissa, the same samples, value, count and error *)
@@ -234,26 +189,20 @@ Section C16_1d_real.
     @hint_ok RN (okmR infR) c (reachR h) (Avg1D.TellManyAt RN x l m) ->
     map (@Avg1D.core RN) (fst (@Avg1D.tell_many_at RN tppf c (reachR h) x l m)) =
     map (@Avg1D.core RN) (fold_left (fun s sy => @Avg1D.tell RN tppf c s (fst sy) x (snd sy)) l (reachR h)).
-  Proof.
-    intros h x l m Hl Hh Hlo Hho. apply batch_equals_incremental; auto.
-    apply GR_reach; assumption.
-  Qed.
+  Proof. exact (C16_1d_batch_equals_incremental_pf infR tppf c). Qed.
 End C16_1d_real.
 
 (* finding F13: with the code as it is (dedup = false) a batch that contains a seed
    already known at x breaks counts = number of samples (the sample is overwritten
-   and counted again); witness in IEEE doubles *)
+   and counted again): after tell(0,.5)=1, tell(1,.5)=2, tell_many_at_point(.5,{1:10, 2:3})
+   the count is 4 with 3 samples held and the "mean" is 4 = (1+2+10+3)/4; witness in
+   IEEE doubles *)
 Theorem C16_1d_batch_known_seed_refuted :
   exists (c : Avg1D.cfg (FloatOps [])) (h : list (Avg1D.op (FloatOps []))),
     Avg1D.dedup c = false /\
-    ~ Forall (fun p => Avg1D.pcount p = length (Avg1D.samples p))
-             (@Avg1D.reach (FloatOps []) (fun _ => PrimFloat.one) c h).
-Proof.
-  exists (Avg1D.mkcfg (FloatOps []) (-1)%float 1%float 3 0.3%float false).
-  exists [Avg1D.Tell (FloatOps []) 0 0.5%float 1%float; Avg1D.Tell (FloatOps []) 1 0.5%float 2%float;
-          Avg1D.TellManyAt (FloatOps []) 0.5%float [(1, 10%float); (2, 3%float)] 6.5%float].
-  split; [reflexivity|]. vm_compute. intros H. inversion H as [|? ? Hp _]. discriminate Hp.
-Qed.
+    map (fun p => (Avg1D.pcount p, length (Avg1D.samples p), Avg1D.pmean p))
+        (@Avg1D.reach (FloatOps []) (fun _ => PrimFloat.one) c h) = [(4, 3, 4%float)].
+Proof. exact C16_1d_batch_known_seed_refuted_pf. Qed.
 
 (* non-vacuity: concrete histories in IEEE doubles *)
 Example C16_example_avg :
@@ -262,9 +211,9 @@ Example C16_example_avg :
   let h := [Avg.Ask 2 true []; Avg.Tell F 1 3%float; Avg.Tell F 1 100%float; Avg.Tell F 5 1%float;
             Avg.TellPending 2; Avg.Ask 3 true [7; 3; 6]; Avg.Tell F 0 2%float] in
   let s := Avg.reach c h in
-  Avg.data s = [(1, 3%float); (5, 1%float); (0, 2%float)] /\ Avg.pend s = [2; 3; 6; 7] /\
+  Avg.data s = [(1, 3%float); (5, 1%float); (0, 2%float)] /\ Avg.pend s = [2; 3; 4; 6] /\
   Avg.mean s = Some 2%float /\ Avg.std c s = 1%float /\ Avg.min_npoints c <= Avg.npoints s.
-Proof. vm_compute. repeat split; lia. Qed.
+Proof. exact C16_example_avg_pf. Qed.
 
 Example C16_example_1d :
   let F := FloatOps [] in
@@ -275,7 +224,7 @@ Example C16_example_1d :
             Avg1D.TellMany F [(1, 0.5%float, 3%float); (7, 0.25%float, 5%float); (9, 0.25%float, 6%float)] [5.5%float]] in
   @Avg1D.legal F t c (Avg1D.init F) h = true /\
   map (fun p => (Avg1D.pcount p, Avg1D.pmean p)) (@Avg1D.reach F t c h) = [(4, 3.75%float); (3, 2%float)].
-Proof. vm_compute. split; reflexivity. Qed.
+Proof. exact C16_example_1d_pf. Qed.
 
 Print Assumptions C16_each_seed_once.
 Print Assumptions C16_mean.
